@@ -6,8 +6,13 @@
 //! over it): an in-memory listen queue of duplex streams in which, as in a kernel backlog, a connection sits with whatever its
 //! client has already written - and, unlike a tokio socket, is readable at once when it is accepted.
 //!
-//! line: `srvk <h1|auto> <tcp|unix|tcptls|duptls|backlog|backlogtls> ; <fault> ; …`
-//!   fault: `[pre:]rst | close | garbage | half | stall | tlshalf`   (`pre:` = before the server future is first polled)
+//! `dupcap`: the duplex acceptor with a cap on the pipe size (`with_max_buf_size`); fault `zero` is a duplex client that asks for a pipe
+//! of zero bytes (a plain `close` elsewhere): the size a client asks for is the client's to choose.
+//!
+//! line: `srvk <h1|auto> <tcp|unix|tcptls|duptls|dupcap|backlog|backlogtls> ; <fault> ; …`
+//!   fault: `[pre:]rst | close | garbage | half | stall | tlshalf | bound | bound8 | boundgone`   (`pre:` = before the server future is first polled)
+//!   bound*: a Unix client that binds its own socket before connecting - to an ordinary path, to a path that is not UTF-8, to a path it
+//!   unlinks right after binding (on the other acceptors these are plain `close`s): the peer address a listener reports at accept is the client's to choose
 //! obs : `<P|OK|EA|EM|EO|PANIC> <probe served 0|1>`
 use crate::rng::Rng;
 use hyperdriver::server::conn::Acceptor;
@@ -20,8 +25,8 @@ use tokio::io::{AsyncRead, AsyncReadExt, AsyncWrite, AsyncWriteExt};
 
 type BoxError = Box<dyn std::error::Error + Send + Sync + 'static>;
 
-const FAULTS: &[&str] = &["rst", "close", "garbage", "half", "stall", "tlshalf"];
-const KINDS: &[&str] = &["tcp", "tcp", "unix", "tcptls", "duptls", "backlog", "backlogtls"];
+const FAULTS: &[&str] = &["rst", "close", "garbage", "half", "stall", "tlshalf", "bound", "bound8", "boundgone", "zero"];
+const KINDS: &[&str] = &["tcp", "tcp", "unix", "unix", "tcptls", "duptls", "dupcap", "backlog", "backlogtls"];
 
 pub fn gen(r: &mut Rng, _i: u64) -> String {
     let proto = if r.chance(1, 2) { "h1" } else { "auto" };
@@ -35,7 +40,7 @@ pub fn gen(r: &mut Rng, _i: u64) -> String {
 pub fn exhaustive() -> Vec<String> {
     let mut out = vec![];
     for proto in ["h1", "auto"] {
-        for kind in ["tcp", "unix", "tcptls", "duptls", "backlog", "backlogtls"] {
+        for kind in ["tcp", "unix", "tcptls", "duptls", "dupcap", "backlog", "backlogtls"] {
             for f in FAULTS {
                 out.push(format!("srvk {proto} {kind} ; pre:{f}"));
                 out.push(format!("srvk {proto} {kind} ; {f}"));
@@ -97,6 +102,32 @@ async fn fault(t: &Target, f: &str, held: &mut Vec<Box<dyn Io>>, pre: bool) {
             let c = c.clone();
             let _ = tokio::time::timeout(Duration::from_millis(5), async move { c.connect(1024).await }).await;
         }
+        return;
+    }
+    if let (Target::Unix(server), "bound" | "bound8" | "boundgone") = (t, f) {
+        use std::os::unix::ffi::OsStrExt;
+        static N: std::sync::atomic::AtomicUsize = std::sync::atomic::AtomicUsize::new(0);
+        let k = N.fetch_add(1, std::sync::atomic::Ordering::SeqCst);
+        let mut name = format!("hdverif-c{}-{k}", std::process::id()).into_bytes();
+        if f == "bound8" { name.extend_from_slice(b"-\xff\xfe"); }
+        name.extend_from_slice(b".sock");
+        let path = std::env::temp_dir().join(std::ffi::OsStr::from_bytes(&name));
+        let _ = std::fs::remove_file(&path);
+        if let Ok(sock) = socket2::Socket::new(socket2::Domain::UNIX, socket2::Type::STREAM, None) {
+            if let (Ok(me), Ok(srv)) = (socket2::SockAddr::unix(&path), socket2::SockAddr::unix(server)) {
+                if sock.bind(&me).is_ok() {
+                    if f == "boundgone" { let _ = std::fs::remove_file(&path); }
+                    let _ = sock.connect(&srv);
+                    tokio::time::sleep(Duration::from_millis(2)).await;
+                }
+            }
+            drop(sock);
+        }
+        let _ = std::fs::remove_file(&path);
+        return;
+    }
+    if let (Target::Duplex(c), "zero") = (t, f) {
+        let _ = tokio::time::timeout(Duration::from_millis(300), c.connect(0)).await;
         return;
     }
     let Some(mut io) = t.connect(f == "rst").await else { return };
@@ -162,6 +193,11 @@ async fn run_case(proto: &str, kind: &str, faults: &[&str]) -> String {
         "duptls" => {
             let (c, incoming) = duplex::pair();
             let a = Acceptor::from(incoming).with_tls(tls_cfg());
+            (Target::Duplex(c), Box::new(move || serve_on!(a)))
+        }
+        "dupcap" => {
+            let (c, incoming) = duplex::pair();
+            let a = Acceptor::from(incoming.with_max_buf_size(4096));
             (Target::Duplex(c), Box::new(move || serve_on!(a)))
         }
         "backlog" => {
